@@ -34,6 +34,7 @@ package c15
 
 import (
 	"bytes"
+	"encoding/hex"
 	"errors"
 	"fmt"
 	"math/rand"
@@ -1022,7 +1023,10 @@ func (x *runner) opForge(w []string) string {
 	if w[0] == "forgecrash" {
 		atHandoff = func() { r.genFS.SetIgnoreSyncs(true) } // nothing after the hand-off reaches the disk
 	}
+	r.n.ABI.TakeConsensusSeen()
+	r.n.ABI.RecordConsensus = true
 	fr, err := r.forgeAt(ts, v, poolTxs(pool), atHandoff)
+	genSeen := r.n.ABI.TakeConsensusSeen()
 	calls := r.abi.takeLog()
 	if err != nil {
 		if w[0] == "forgecrash" {
@@ -1091,7 +1095,9 @@ func (x *runner) opForge(w []string) string {
 	acc := 0
 	switch w[0] {
 	case "forge":
+		r.n.ABI.TakeConsensusSeen()
 		res := r.n.ProcessResult(b)
+		x.sameConsensusSeen(b, genSeen, r.n.ABI.TakeConsensusSeen(), res.Applied)
 		if res.Applied {
 			acc = 1
 			sh.applied = true
@@ -1124,6 +1130,52 @@ func (x *runner) opForge(w []string) string {
 	}
 	return fmt.Sprintf("forged h=%d mhg=%d %s sel=%s acc=%d", h.Height, h.MaxHeightGenerated, infoStr, formatIdx(sel), acc)
 }
+
+// sameConsensusSeen: the application must be told the same consensus state (every field of labi.Consensus) while
+// the block is generated and while the same node validates it - an application whose state or events depend on the
+// argument would otherwise compute other roots than the ones in the header, and the node would reject its own block.
+// Compared: BeforeTransactionsExecute, AfterTransactionsExecute and ExecuteTransaction of the transactions that are
+// in the block (the generator also executes candidates it then drops).
+func (x *runner) sameConsensusSeen(b *blockchain.Block, gen, val []node.ConsensusSeen, applied bool) {
+	if !applied {
+		return // a rejected block is reported by the acceptance oracle; validation may have stopped early
+	}
+	inBlock := map[string]bool{}
+	for _, tx := range b.Transactions {
+		inBlock[hex.EncodeToString(tx.ID)] = true
+	}
+	pick := func(l []node.ConsensusSeen) map[string]string {
+		m := map[string]string{}
+		for _, e := range l {
+			if e.Height != b.Header.Height {
+				continue
+			}
+			switch e.Hook {
+			case node.HookBeforeTxs, node.HookAfterTxs:
+				m[string(e.Hook)] = e.Digest
+			case node.HookExecuteTx:
+				if inBlock[e.TxID] {
+					m[string(e.Hook)+" "+e.TxID] = e.Digest // the last execution of a transaction is the one that stayed
+				}
+			}
+		}
+		return m
+	}
+	g, v := pick(gen), pick(val)
+	atomic.AddInt64(&cntConsensusSeen, int64(len(v)))
+	for k, dv := range v {
+		dg, ok := g[k]
+		if !ok {
+			x.fail("c15-generation-skips-application-call", "block at height %d: validation calls %s, generation did not", b.Header.Height, k)
+			continue
+		}
+		if dg != dv {
+			x.fail("c15-generation-consensus-argument-differs", "block at height %d (aggregate commit height %d), %s: the application is told [%s] while the block is generated and [%s] while the same node validates it", b.Header.Height, b.Header.AggregateCommit.Height, k, dg, dv)
+		}
+	}
+}
+
+var cntConsensusSeen int64
 
 func (x *runner) rejected(b *blockchain.Block, err error, how string) {
 	if aerr := x.r.n.VerifyAggregateCommit(b.Header.AggregateCommit); aerr != nil {
